@@ -26,7 +26,7 @@ Floats are Python `repr` texts; here (and only here) they are interpreted, throu
 `Float`; results of float arithmetic are carried as `#<bits in hex>`.
 -/
 namespace AasVerif.Drive.C08
-open AasVerif AasVerif.Expr AasVerif.Sdk
+open AasVerif AasVerif.Expr AasVerif.SdkV
 
 abbrev P (α : Type) := Expr.Wire.P α
 
